@@ -23,7 +23,7 @@ from harness import mem_common as mc
 
 LEVEL = "model_checking"
 VARIANTS = [("idx_le", "arr"), ("slice_no_neg", "arr"), ("ass_extra", "arr"), ("add_bytes", "arr"),
-            ("memcpy_fwd", "arr"), ("own_any", "own")]
+            ("memcpy_fwd", "arr"), ("own_any", "own"), ("mask", "arr")]
 
 CLAUSE = {
     "getitem:not-accepted": "x[i] with an index the statement accepts was rejected",
@@ -49,7 +49,9 @@ CLAUSE = {
     "sub:not-accepted": "p - i failed", "sub:address": "p - i is not i*sizeof(T) bytes before p",
     "addressof:not-accepted": "ffi.addressof(x, i) failed", "addressof:address": "ffi.addressof(x, i) is not x + i",
     "addressof:neq-add": "ffi.addressof(x, i) != x + i",
-    "diff:not-accepted": "p - q failed", "diff:value": "(p+i) - p != i",
+    "diff:not-accepted": "p - q failed although the byte distance is a multiple of sizeof(T)", "diff:value": "(p+i) - p != i",
+    "diff:not-a-multiple-accepted": "p - q was accepted although the byte distance is not a multiple of sizeof(T)",
+    "cast:not-accepted": "ffi.cast('T *', ...) failed", "cast:address": "ffi.cast('T *', char pointer) is not at that address",
     "offsetof:not-accepted": "ffi.offsetof('T[]', i) failed", "offsetof:value": "ffi.offsetof('T[]', i) != i*sizeof(T)",
 }
 
@@ -58,9 +60,9 @@ CLAUSE = {
 def validate(ctx, traces, name="Trace_Memory"):
     """TLC validates all traces against the ideal; returns [(index, clause, pos)] of the bad ones."""
     bad = []
-    for lo in range(0, len(traces), 1500):
-        chunk = traces[lo:lo + 1500]
-        tups = core.tlc_verdicts(ctx, "Trace_Memory", chunk, name=name)
+    for lo in range(0, len(traces), 8000):
+        chunk = traces[lo:lo + 8000]
+        tups = core.tlc_verdicts(ctx, "Trace_Memory", chunk, name=name, workers=4)
         verdicts = {int(t[0]): (core.unq(t[1]), int(t[2])) for t in tups}
         if len(verdicts) != len(chunk):
             raise core.MachineryError("trace validation incomplete: %d verdicts for %d traces\n%s" % (
@@ -151,10 +153,10 @@ def replay_path(ctx, g, path, kind, flavor, rootlen, rng, step_no=[0]):
 
 
 def dump_confs(ctx):
-    confs = [(2, 2, "arr", 3, 2), (4, 1, "own", 2, 2)]
+    confs = [(2, 2, "arr", 3, 2), (4, 1, "own", 2, 2), (3, 2, "arr", 3, 2)]
     if not ctx.quick:
         confs += [(1, 3, "arr", 3, 2), (4, 2, "arr", 3, 2), (8, 2, "arr", 2, 2), (8, 1, "own", 3, 2),
-                  (3, 2, "arr", 2, 2), (2, 1, "own", 2, 2)]
+                  (2, 1, "own", 2, 2), (12, 2, "arr", 3, 2), (20, 1, "arr", 3, 2), (7, 2, "arr", 3, 2), (6, 1, "own", 3, 2)]
     return confs
 
 
@@ -179,6 +181,8 @@ def spec_to_code(ctx, jobs, traces, metas, divergences):
                 ("slice", "ok"), ("slice", "IndexError"), ("assign", "ok"), ("assign", "IndexError"),
                 ("assign", "ValueError"), ("assignview", "ok"), ("add", "ok"), ("sub", "ok"), ("diff", "ok"),
                 ("addressof", "ok"), ("offsetof", "ok")}
+        if isz not in (1, 2, 4, 8):
+            need |= {("cast", "ok"), ("diff", "ValueError")}
         if need - seen:
             raise core.MachineryError("state graph %s lacks transitions %s (vacuous)" % (dump, sorted(need - seen)))
         pre = bfs_prefixes(g)
@@ -228,7 +232,7 @@ def gen_op(rng, ar, maxviews=10):
     sz, total = ar.kind.sz, ar.total
     ops = ["getitem"] * 20 + ["setitem"] * 20 + ["assign"] * 12 + ["assignview"] * 6 + ["diff"] * 5 + ["offsetof"] * 2
     if len(ar.views) < maxviews:
-        ops += ["slice"] * 12 + ["add"] * 6 + ["sub"] * 5 + ["addressof"] * 5
+        ops += ["slice"] * 12 + ["add"] * 6 + ["sub"] * 5 + ["addressof"] * 5 + ["cast"] * 4
     o = rng.choice(ops)
     a = rng.randrange(len(ar.views)) + 1
     k, off, ln = ar.desc[a - 1]
@@ -236,6 +240,14 @@ def gen_op(rng, ar, maxviews=10):
         return {"op": o, "a": 0, "i": rng.choice([0, 1, 2, 7, 1000, -1, -3, 10 ** 6])}
     if o == "diff":
         return {"op": o, "a": a, "b": rng.randrange(len(ar.views)) + 1}
+    if o == "cast":
+        lo, hi = -off, total - off - sz            # keep the result dereferenceable inside the backing store
+        if hi < lo:
+            return None
+        nb = rng.choice([rng.randint(lo, hi), rng.randint(lo, hi) // sz * sz, sz, 1, sz + 1, 2 * sz])
+        if not ar.kind.anybytes:
+            nb = nb // sz * sz          # misaligned items of float / char32_t / _Bool kinds need not be values
+        return {"op": o, "a": a, "i": nb}
     if o in ("add", "sub", "addressof"):
         return {"op": o, "a": a, "i": rng.choice([0, 1, -1, 2, 3, -2, ln, rng.randint(-50, 50), rng.choice([10 ** 6, -10 ** 6])]),
                 "swap": rng.random() < 0.3}
@@ -299,6 +311,21 @@ def random_trace(ctx, rng, kind, flavor, n, nops):
             i = rng.randint(max(0, -d), n - k - max(0, d))
             queue = [{"op": "slice", "a": 1, "i": i, "j": i + k},
                      lambda: {"op": "assignview", "a": 1, "i": i + d, "j": i + d + k, "b": len(ar.views)}]
+        if not queue and step % 9 == 7 and len(ar.views) < 9:
+            # (p+i) - p == i, and the difference of two pointers cast at byte distance nb (multiple or not)
+            a0 = rng.randrange(len(ar.views)) + 1
+            i0 = rng.choice([1, 2, 3, -1, 5, rng.randint(-20, 20)])
+            nb = rng.choice([1, kind.sz, kind.sz + 1, 2 * kind.sz, 3 * kind.sz - 1, rng.randint(0, 40)])
+            if not kind.anybytes:
+                nb = nb // kind.sz * kind.sz
+            if rng.random() < 0.5:
+                queue = [{"op": "add", "a": a0, "i": 0}, lambda: {"op": "add", "a": len(ar.views), "i": i0},
+                         lambda: {"op": "diff", "a": len(ar.views), "b": len(ar.views) - 1},
+                         lambda: {"op": "diff", "a": len(ar.views) - 1, "b": len(ar.views)}]
+            else:
+                queue = [{"op": "cast", "a": a0, "i": 0}, lambda: {"op": "cast", "a": len(ar.views), "i": nb},
+                         lambda: {"op": "diff", "a": len(ar.views), "b": len(ar.views) - 1},
+                         lambda: {"op": "diff", "a": len(ar.views) - 1, "b": len(ar.views)}]
         if queue:
             op = queue.pop(0)
             op = op() if callable(op) else op
@@ -362,11 +389,15 @@ def observations(ctx):
 def design_runs(ctx):
     runs = [("MC_Memory(sz=2,arr n=2,views<=3,steps<=3,idx -1..3)", mc.memory_cfg(2, 2, "arr", 3, 3, 1, 3)),
             ("MC_Memory(sz=4,own,views<=3,steps<=3,idx -1..2)", mc.memory_cfg(4, 1, "own", 3, 3, 1, 2)),
-            ("MC_Memory(sz=1,arr n=3,views<=2,steps<=2,idx -1..4)", mc.memory_cfg(1, 3, "arr", 2, 2, 1, 4))]
+            ("MC_Memory(sz=1,arr n=3,views<=2,steps<=2,idx -1..4)", mc.memory_cfg(1, 3, "arr", 2, 2, 1, 4)),
+            ("MC_Memory(sz=3,arr n=2,views<=3,steps<=3,casts,idx -1..2)", mc.memory_cfg(3, 2, "arr", 3, 3, 1, 2))]
     if not ctx.quick:
         runs += [("MC_Memory(sz=1,arr n=3,views<=3,steps<=3,idx -1..4)", mc.memory_cfg(1, 3, "arr", 3, 3, 1, 4)),
                  ("MC_Memory(sz=2,arr n=3,views<=3,steps<=3,idx -1..4)", mc.memory_cfg(2, 3, "arr", 3, 3, 1, 4)),
-                 ("MC_Memory(sz=8,arr n=2,views<=3,steps<=3,idx -2..3)", mc.memory_cfg(8, 2, "arr", 3, 3, 2, 3))]
+                 ("MC_Memory(sz=8,arr n=2,views<=3,steps<=3,idx -2..3)", mc.memory_cfg(8, 2, "arr", 3, 3, 2, 3)),
+                 ("MC_Memory(sz=12,arr n=2,views<=3,steps<=3,casts,idx -1..3)", mc.memory_cfg(12, 2, "arr", 3, 3, 1, 3)),
+                 ("MC_Memory(sz=20,arr n=2,views<=3,steps<=2,casts,idx -1..3)", mc.memory_cfg(20, 2, "arr", 3, 2, 1, 3)),
+                 ("MC_Memory(sz=6,own,views<=3,steps<=3,casts,idx -1..2)", mc.memory_cfg(6, 1, "own", 3, 3, 1, 2))]
     return runs
 
 
@@ -374,7 +405,9 @@ def submit_design(ctx, jobs):
     for name, cfg in design_runs(ctx):
         jobs.submit(name, "Memory", cfg_text=cfg, workers=4 if ctx.quick else 8, timeout=3000)
     for v, rk in VARIANTS:
-        cfg = mc.memory_cfg(2, (3 if v == "memcpy_fwd" else 2) if rk == "arr" else 1, rk, 3, 2, 1, 3, variant=v)
+        # "mask" (multiple-of-item-size test by bit mask) is wrong only for sizes that are not powers of two
+        cfg = mc.memory_cfg(3 if v == "mask" else 2, (3 if v == "memcpy_fwd" else 2) if rk == "arr" else 1, rk, 3, 2, 1, 3,
+                            variant=v)
         jobs.submit("sanity:" + v, "Memory", cfg_text=cfg, workers=2, timeout=1200)
 
 
